@@ -17,7 +17,7 @@ func init() {
 			if tier == "quick" {
 				return 2400
 			}
-			return 60000
+			return 120000
 		},
 		Rule: "case = a seeded population history: up to 8 live trees over one store and one node cache (none / ARC(100000) / ARC(3)), ops insert 40 / update 8 / delete 22 / clone-to-new-live 8 / capture-clone 6 / capture-cursor 4 / persist-and-keep-root 7 (some with one failing Store, after which the tree lives on and is persisted again later) / load-a-kept-root 5; after EVERY op every captured version (frozen clone, open cursor walked forwards and backwards, kept root re-opened both through the shared cache and with no cache) and every live tree is re-read completely and compared with the model snapshot taken at capture time; non-trivial = >= 3 captured versions alive AND a root re-opened through a cache AND a mutation after a capture; distinct by hash of the op list",
 		Assumptions: []string{
@@ -333,6 +333,9 @@ func runC02(c *fw.C) {
 				break
 			}
 			p.logf("tree#%d persist -> kept root %s", l.id, rootStr(root))
+			if root.Link != nil {
+				c.Distinct("versions_captured", fw.StrHash(*root.Link))
+			}
 			p.addCap(&capture{kind: "root", root: root, snap: l.md.Clone(), from: l.id})
 		default: // load a kept root as a new live tree
 			var roots []*capture
